@@ -44,6 +44,9 @@ ASSUME = ["ops contains \"Select\" and \"Where\" (the lowering emits method-form
           "InitVar and hand-written __init__ are outside the stated field-list quantifier)",
           "generator expressions are forced where they are created (the query language has no lazy values; late "
           "binding of a lazy generator consumed after its enclosing loop ended is outside the property)",
+          "a callee Constant is a class: a Constant holding a dataclass/NamedTuple *instance* (bridge kind other:...) and "
+          "generator slots holding statement nodes that happen to have a .target (ast.For, ast.NamedExpr) are outside "
+          "the model and the generators",
           "error messages (which call ast.unparse on the node) are not modelled; exception classes are",
           "multi-for comprehensions are modelled and compared exactly but have no meaning in Base/Eval.v: the semantic "
           "theorem is about single-for comprehensions, as the property is"]
@@ -526,7 +529,7 @@ def cases(ctx):
             else:
                 out.append(("sem", fcall("Select", N("zs"), lam("r", e))))
     ctx.notes.append("comprehension nests: depth<=2 bare and depth 1 under both operator-lambda wrappers, exhaustive: %d" % n2)
-    n3 = ctx.budget(2500, 40000)
+    n3 = ctx.budget(1500, 40000)
     for _ in range(n3):
         w = r.choice([0, 0, 1, 2])
         out.append(("sem", wrap(lambda outer, base: rand_comp(r, 3, outer, base), w)))
@@ -549,10 +552,10 @@ def cases(ctx):
             nd += 2
     ctx.notes.append("constructor calls: %d (all field lists <=3 x dataclass/NamedTuple x 0-4 positionals x keyword "
                      "sequences over x,y,z,w up to length %d; + starred / **kw / defaulted-field variants)" % (nd, max_kw))
-    out += sem_dc_cases(r, ctx.budget(600, 6000))
-    out += malformed_cases(r, ctx.budget(900, 9000))
+    out += sem_dc_cases(r, ctx.budget(400, 6000))
+    out += malformed_cases(r, ctx.budget(600, 9000))
     rg = SugarRandom(r)
-    for _ in range(ctx.budget(2500, 40000)):
+    for _ in range(ctx.budget(1500, 40000)):
         out.append(("random", rg.expr(r.randrange(2, 5))))
     return out
 
